@@ -24,6 +24,8 @@
 //	N              release the installer from its gate, wait for the next gate or the end of the installation
 //	F              release gates until the installation has finished, join every pending operation
 //	Y n            yield n times
+//	W 1            (first group only) install the recording MeterProvider with one Go type per instrument kind
+//	               (c16_rec_test.go) instead of sdk/metric + ManualReader
 //	[ … ; … ]      parallel block: the op lists separated by `;` run in goroutines released together; `]` joins
 //
 // While a gated installer is parked, every operation is started in its own goroutine; one that does not return
@@ -77,6 +79,8 @@ type world struct {
 	props   map[int]int
 	prop0   propagation.TextMapPropagator
 
+	useRec bool   // script starts with `W 1`
+	rec    *recMP // delegate with a distinct type per instrument kind
 	mp     *sdkmetric.MeterProvider
 	reader *sdkmetric.ManualReader
 	tp     *sdktrace.TracerProvider
@@ -111,9 +115,18 @@ func newWorld() *world {
 	otel.SetErrorHandler(otel.ErrorHandlerFunc(func(error) { w.handled.Add(1) }))
 	w.reader = sdkmetric.NewManualReader()
 	w.mp = sdkmetric.NewMeterProvider(sdkmetric.WithReader(w.reader))
+	w.rec = newRecMP()
 	w.exp = tracetest.NewInMemoryExporter()
 	w.tp = sdktrace.NewTracerProvider(sdktrace.WithSyncer(w.exp))
 	return w
+}
+
+// delegateMP is the MeterProvider this scenario installs.
+func (w *world) delegateMP() metric.MeterProvider {
+	if w.useRec {
+		return w.rec
+	}
+	return w.mp
 }
 
 func goid() int64 {
@@ -150,7 +163,7 @@ type gateMP struct {
 
 func (g *gateMP) Meter(name string, opts ...metric.MeterOption) metric.Meter {
 	g.w.gate(name)
-	real := g.w.mp.Meter(name, opts...)
+	real := g.w.delegateMP().Meter(name, opts...)
 	if g.lvl < 2 {
 		return real
 	}
@@ -422,8 +435,10 @@ func (w *world) exec(op []string) {
 		w.mu.Lock()
 		w.props[atoi(op[1])] = v
 		w.mu.Unlock()
+	case "W":
+		// handled by run() before anything else
 	case "IM":
-		otel.SetMeterProvider(w.mp)
+		otel.SetMeterProvider(w.delegateMP())
 	case "IT":
 		otel.SetTracerProvider(w.tp)
 	case "IP":
@@ -583,6 +598,10 @@ func parseScript(s string) [][]string {
 
 func (w *world) run(script string) {
 	ops := parseScript(script)
+	if len(ops) > 0 && ops[0][0] == "W" {
+		w.useRec = len(ops[0]) > 1 && ops[0][1] == "1"
+		ops = ops[1:]
+	}
 	for i := 0; i < len(ops); i++ {
 		if ops[i][0] == "[" {
 			var threads [][][]string
@@ -627,6 +646,11 @@ func (w *world) observe() string {
 		}
 	}
 	data := map[string]string{}
+	if w.useRec {
+		w.rec.collect()
+		data = w.rec.collect()
+		rm = metricdata.ResourceMetrics{}
+	}
 	type pt struct{ c, v int }
 	ptsOf := func(ps []pt) string {
 		sort.Slice(ps, func(a, b int) bool { return ps[a].c < ps[b].c || ps[a].c == ps[b].c && ps[a].v < ps[b].v })
